@@ -11,9 +11,10 @@ fn lint_sig(l: &Lint) -> String {
 }
 
 /// A lint of the spell checker itself (other rules also use the Spelling kind, e.g. `im` -> `I'm`).
-/// The texts of the tokens the ignore list looks at besides the flagged ones (LintContext::from_lint): those that
-/// touch the two characters before the lint and those that touch characters start+2 .. start+4.
-fn context_words(text: &str, lang: Language, start: usize) -> (Vec<String>, Vec<String>) {
+/// The texts of the tokens the ignore list looks at (LintContext::from_lint): those that touch the two characters before
+/// the lint, those under the lint, and those that touch characters start+2 .. start+4.  The list hashes them as one flat
+/// sequence.
+fn context_words(text: &str, lang: Language, start: usize, end: usize) -> (Vec<String>, Vec<String>, Vec<String>) {
     use harper_core::parsers::{Markdown, PlainEnglish};
     let dict = harper_core::FstDictionary::curated();
     let doc = match lang {
@@ -29,8 +30,9 @@ fn context_words(text: &str, lang: Language, start: usize) -> (Vec<String>, Vec<
             .collect()
     };
     let before = if start >= 2 { touching(start - 2, start) } else { Vec::new() };
+    let problem = touching(start.min(src.len()), end.min(src.len()));
     let after = touching((start + 2).min(src.len()), (start + 4).min(src.len()));
-    (before, after)
+    (before, problem, after)
 }
 
 fn is_spellcheck(l: &Lint) -> bool {
@@ -250,13 +252,23 @@ pub fn worker(ctx: &mut Ctx) {
                             if after.contains(&target_sig) {
                                 rep_in.finding("C16", "ignore.still-reported", text.len(), || json!({"text": text, "ignored": target_sig}), || "the ignored lint is still returned".to_string());
                             }
-                            let t_ctx = context_words(&text, lang, lints[idx].span().start);
+                            let t_ctx = context_words(&text, lang, lints[idx].span().start, lints[idx].span().end);
+                            let flat = |c: &(Vec<String>, Vec<String>, Vec<String>)| -> Vec<String> { c.0.iter().chain(c.1.iter()).chain(c.2.iter()).cloned().collect() };
                             for (i, b) in before.iter().enumerate() {
+                                if after.contains(b) {
+                                    continue;
+                                }
                                 // a lint goes with the ignored one only if the ignore list cannot tell them apart: same message, same
                                 // flagged text, same neighbouring tokens
-                                if !after.contains(b) && (lints[i].message() != t_msg || lints[i].get_problem_text() != t_pt || context_words(&text, lang, lints[i].span().start) != t_ctx) {
-                                    rep_in.finding("C16", "ignore.removed-other", text.len(), || json!({"text": text, "ignored": target_sig, "also_gone": b}), || format!("ignoring one lint also removed {b}"));
+                                let o_ctx = context_words(&text, lang, lints[i].span().start, lints[i].span().end);
+                                if lints[i].message() == t_msg && lints[i].get_problem_text() == t_pt && o_ctx == t_ctx {
+                                    continue;
                                 }
+                                // the listed collision: the tokens before, under and after a lint are hashed as one flat sequence, so two
+                                // lints with the same message whose sequences agree although they are split differently (a lint at the
+                                // very start of the text and one two tokens further on) cannot be told apart
+                                let sig = if lints[i].message() == t_msg && flat(&o_ctx) == flat(&t_ctx) { "ignore.removed-other@same-flat-context" } else { "ignore.removed-other" };
+                                rep_in.finding("C16", sig, text.len(), || json!({"text": text, "ignored": target_sig, "also_gone": b}), || format!("ignoring one lint also removed {b}"));
                             }
                             for a in &after {
                                 if !before.contains(a) {
